@@ -7,6 +7,20 @@ import sys
 from .base import HarnessError
 
 
+def _safe_print(*args, **kw):
+    """The simulator's own output never fails on a stream that only takes ASCII (interpreter flag 'A')."""
+    import builtins
+    import sys as _sys
+    enc = (getattr(kw.get('file') or _sys.stdout, 'encoding', None) or 'utf-8').lower()
+    if enc.replace('-', '').replace('_', '') in ('ascii', 'usascii', 'ansix3.41968', '646'):
+        args = [str(a).encode('ascii', 'backslashreplace').decode('ascii') for a in args]
+    builtins.print(*args, **kw)
+
+
+print = _safe_print
+
+
+
 def _assert_tree():
     import clastic
     repo = os.path.abspath(os.environ.get('VERIF_REPO', '/repo'))
